@@ -166,9 +166,9 @@ def rle : Bytes → List (Nat × Nat)
     | (y, n) :: r => if x = y then (y, n + 1) :: r else (x, 1) :: (y, n) :: r
     | [] => [(x, 1)]
 
-/-- representation change for the interpreter: the same directory on indexes `< n`, looked up in an array -/
-def tabulate (f : Files) (n : Nat) : Files :=
-  let a : Array (Option Bytes) := ((List.range n).map f).toArray
-  fun j => a.getD j none
+/-- representation change for the interpreter (a closure chain would be re-evaluated on every lookup): the directory
+    on indexes `< n` as an array, and back (`Lemmas.Rotation.ofArray_toArray`) -/
+def toArray (f : Files) (n : Nat) : Array (Option Bytes) := ((List.range n).map f).toArray
+def ofArray (a : Array (Option Bytes)) : Files := fun j => a.getD j none
 
 end Rot
